@@ -54,10 +54,25 @@ func RunWorker(w Worker, args []string) int {
 	out := bufio.NewWriter(vf.Out)
 	st := Stats{}
 	nsamples := 0
+	items := 0
+	flushStats := func() {
+		if len(st) == 0 {
+			return
+		}
+		b, _ := json.Marshal(st)
+		fmt.Fprintf(out, "P%s\n", b)
+		for k := range st {
+			delete(st, k)
+		}
+	}
 	for i := from; i < w.N(); i++ {
 		if i%nsh != shard {
 			continue
 		}
+		// the counters of completed items are handed over before the next item starts,
+		// so a crash loses nothing but the crashing item
+		flushStats()
+		items++
 		fmt.Fprintf(out, "@%d\n", i)
 		out.Flush()
 		w.Item(i, func(v vf.Violation) {
@@ -71,8 +86,8 @@ func RunWorker(w Worker, args []string) int {
 			}
 		})
 	}
-	b, _ := json.Marshal(st)
-	fmt.Fprintf(out, "S%s\n", b)
+	flushStats()
+	fmt.Fprintf(out, "S{}\n")
 	out.Flush()
 	return 0
 }
@@ -159,6 +174,15 @@ func Run(run *vf.Run, id, tier string, w Worker, deadline time.Time, itemTimeout
 								mu.Lock()
 								if len(res.Samples) < 8 {
 									res.Samples = append(res.Samples, s)
+								}
+								mu.Unlock()
+							}
+						case 'P':
+							var st Stats
+							if json.Unmarshal([]byte(l[1:]), &st) == nil {
+								mu.Lock()
+								for k, n := range st {
+									res.Stats[k] += n
 								}
 								mu.Unlock()
 							}
